@@ -147,6 +147,9 @@ pub struct Inject {
     pub data_response: Option<(u32, u8)>,
     /// R2 answer to the n-th CMD13
     pub cmd13: Option<(u32, u8, u8)>,
+    /// the n-th frame of command `cmd` (ACMDs: | 0x80) in the current driver call is not executed;
+    /// the card answers it with this R1 byte instead (a card-side glitch / refusal)
+    pub r1_override: Option<(u8, u32, u8)>,
 }
 
 #[derive(Clone, Debug)]
@@ -188,6 +191,8 @@ pub struct Card {
     /// a card that really erases the announced number of blocks when the multiple-block write
     /// starts (legal: their contents are undefined until written); off by default
     pub honour_pre_erase: bool,
+    /// how often each command (ACMDs | 0x80) was seen in the current driver call
+    cmd_seen: std::collections::HashMap<u8, u32>,
     /// number of CMD0 frames the card sleeps through (no response at all) after every power-on
     pub sleepy: u32,
     sleepy_left: u32,
@@ -254,6 +259,7 @@ impl Card {
             write_block: 0,
             pre_erase: None,
             honour_pre_erase: false,
+            cmd_seen: Default::default(),
             sleepy: 0,
             sleepy_left: 0,
             pre_erase_armed: None,
@@ -296,6 +302,7 @@ impl Card {
         self.bytes_in_call = 0;
         self.corrupted_this_call = false;
         self.miso_call.clear();
+        self.cmd_seen.clear();
     }
 
     fn violate(&mut self, rule: &str, msg: String) {
@@ -457,6 +464,19 @@ impl Card {
         }
         if cmd == 23 && !app {
             self.violate("C14.acmd-without-cmd55", "index 23 not directly preceded by CMD55".into());
+        }
+        {
+            let key = cmd | if app { 0x80 } else { 0 };
+            let seen = self.cmd_seen.entry(key).or_insert(0);
+            let nth = *seen;
+            *seen += 1;
+            if let Some((c, n, val)) = self.inject.r1_override {
+                if c == key && n == nth {
+                    self.corrupted_this_call = true;
+                    self.queue_response(&[val]);
+                    return;
+                }
+            }
         }
         if cmd == 0 && self.sleepy_left > 0 {
             // still waking up: the frame goes unanswered
